@@ -184,20 +184,31 @@ def r2_agreement(ck, cx, builds):
                 binds[n.targets[0].attr] = cx.ce.try_ev(n.value.slice, pfn.mod, cls)
         if kind == 'tcp':
             cf = cx.method(cls, 'checkFrame')
-            un = [n for n in ast.walk(cf.node) if isinstance(n, ast.Assign) and isinstance(n.value, ast.Call) and callee_name(n.value) == 'unpack']
             okh = False
-            if un:
-                fmt = cx.ce.try_ev(un[0].value.args[0], cf.mod, cls)
-                tg = un[0].targets[0]
-                keys = [cx.ce.try_ev(t.slice, cf.mod, cls) for t in (tg.elts if isinstance(tg, ast.Tuple) else [tg]) if isinstance(t, ast.Subscript)]
-                built = [(it[1], it[2]) for it in seq if it[0] == 'F'][:4]
-                from ..layout import fmt_items
+            from ..common import annotated_copy
+            from ..layout import fmt_items
+            for p in cx.enum(cf, cls, max_depth=0, resolver=lambda c, fr, pa: None):
+                hp, st = annotated_copy(p, heap=True, versioned=('self._buffer',))
+                cells = {}
+                for key, val in st.heap.items():
+                    if key.startswith("self._header['") and isinstance(val, ast.Subscript) and isinstance(val.value, ast.Call) \
+                            and callee_name(val.value) == 'unpack' and isinstance(val.slice, ast.Constant):
+                        cells[key[len("self._header['"):-2]] = (val.slice.value, val.value)
+                if len(cells) < 4:
+                    continue
+                call = list(cells.values())[0][1]
+                fmt = cx.ce.try_ev(call.args[0], cf.mod, cls)
                 parsed = [it[1] for it in fmt_items(fmt or '', [])]
+                keys = [k for k, v in sorted(cells.items(), key=lambda kv: kv[1][0])]
+                built = [(it[1], it[2]) for it in seq if it[0] == 'F'][:4]
                 inv = {v: k for k, v in binds.items()}
-                okh = parsed == [b[0] for b in built] and len(keys) == 4 and all(
-                    (k == 'len' and 'len(' in b[1]) or b[1] == 'message.%s' % inv.get(k) for k, b in zip(keys, built))
-                sl = un[0].value.args[1]
-                okh = okh and isinstance(sl, ast.Subscript) and nz.norm(sl.slice.upper, env) == Poly.const(sum(fsize(f) for f in parsed))
+                ok1 = parsed == [b_[0] for b_ in built] and len(keys) == 4 and all(
+                    (k == 'len' and 'len(' in b_[1]) or b_[1] == 'message.%s' % inv.get(k) for k, b_ in zip(keys, built))
+                sl = call.args[1]
+                ok2 = isinstance(sl, ast.Subscript) and isinstance(sl.slice, ast.Slice) and sl.slice.upper is not None and \
+                    nz.norm(sl.slice.upper, env) == Poly.const(sum(fsize(f) for f in parsed)) and \
+                    (sl.slice.lower is None or nz.norm(sl.slice.lower, env) == Poly.const(0))
+                okh = okh or (ok1 and ok2)
             ck.ob('R2', cf.qn, 'MBAP header is parsed with the format and field binding it is built with', okh, detail='header-binding', loc=cx.floc(cf),
                   message='tcp checkFrame parses the header differently from buildPacket / populateResult')
             ck.ob('R2', pfn.qn, 'populateResult copies transaction, protocol and unit id', set(binds) == {'transaction_id', 'protocol_id', 'unit_id'},
